@@ -73,7 +73,8 @@ MustWarn == Overlaps # {} /\ shape.warn
 NDom(sh) == IF Mode = "sphere" THEN Len(sh.radii) ELSE 1
 (* constructor table: which argument classes must be rejected (InvalidScatterer)        *)
 (*   rsign: sign of the radius; clen: length of the centre (0 = a bare scalar);        *)
-(*   member: kind of the second member handed to Spheres                               *)
+(*   member: kind of the second member handed to Spheres;  rform: how the radius is    *)
+(*   written (a negative layer radius anywhere in a layered sphere is as invalid)      *)
 CtorAccepts(sh) ==
    IF sh.what = "Sphere" THEN sh.rsign >= 0 /\ sh.clen = 3
    ELSE sh.member = "sphere" /\ sh.rsign >= 0 /\ sh.clen = 3
@@ -112,9 +113,12 @@ Init ==
                         r1 \in 1..RMax, r2 \in 1..RMax, c2 \in (-3..3) \X (-3..3) \X (-3..3),
                         t \in {<<>>, <<1, <<0, 0, 2>>>>, <<2, <<5, 0, 0>>>>}, w \in BOOLEAN}
      \/ /\ Mode = "ctor" /\ center = <<0, 0, 0>>
-        /\ shape \in {[what |-> w, rsign |-> rs, clen |-> cl, member |-> mk] :
+        /\ shape \in {[what |-> w, rsign |-> rs, clen |-> cl, member |-> mk, rform |-> rf] :
                         w \in {"Sphere", "Spheres"}, rs \in {-1, 0, 1}, cl \in {0, 2, 3, 4},
-                        mk \in {"sphere", "ellipsoid", "number"}}
+                        mk \in {"sphere", "ellipsoid", "number"},
+                        \* how the radius is written: one number, or the radii of two layers (one of
+                        \* them carrying the sign) as a list, tuple or array
+                        rf \in {"scalar", "list_inner", "tuple_inner", "array_inner", "list_outer", "tuple_outer"}}
   /\ obs = ObsOf(shape, center)
 
 Translate(v) == /\ nshift < MaxShift /\ Mode # "cluster"
